@@ -108,18 +108,72 @@ theorem window_needed :
 
 /-! ## 2. A compressed message is never delivered with wrong content -/
 
-/- Full statement (FALSE for the code as it is — finding D6):
+/- Two shapes of `Deflate.decompress` are modelled (the check detects which one is under test by
+   feeding the RFC 7692 §7.2.3.4 pair to the real class):
 
-     theorem never_wrong (wsize) (reset) (msgs : List (List Blk)) :
-       objectOutputs wsize reset {} msgs = rfcOutputs wsize reset [] msgs
+   * the pinned one: one `zlib.decompressobj` for the connection — `objectOutputs`, bit level
+     `Inflate.inflateAll`.  For it the full statement
 
-   i.e. what lomond's single zlib object returns for every message is what RFC 7692 says the
-   message's DEFLATE data means (window carried over, nothing else), or both fail.
-   `bfinal_differs` / `bfinal_fails` below refute it; `never_wrong_partial` proves it for all
-   histories without a BFINAL=1 block.  (A repair needs a decompressor per message primed with the
-   previous window — `zlib.decompressobj(-w, zdict=…)` — and was judged not "small and safe".) -/
+         objectOutputs wsize reset {} msgs = rfcOutputs wsize reset [] msgs      (∀ msgs)
 
-/-- **Never wrong, for all histories without BFINAL=1 blocks** (every configuration, every
+     is FALSE (finding D6): `bfinal_differs` / `bfinal_fails` refute it, `never_wrong_partial`
+     proves it for all histories without a BFINAL=1 block;
+   * the repaired one (`fix:` D6): whenever the object reaches its end of stream, the rest of the
+     data goes to a new object primed with the most recent output — `repairedOutputs`, bit level
+     `Inflate.inflateAllSafe`.  For it the full statement holds: `never_wrong`. -/
+
+/-- **Never wrong — the repaired code, every history.**  For every window, both takeover modes
+    and every message history — BFINAL=1 blocks anywhere (several per message, followed by further
+    blocks, at the very end of a message), valid or invalid data — the repaired
+    `Deflate.decompress` delivers for each message exactly what RFC 7692 says the message's DEFLATE
+    data means (all of its blocks, the LZ77 window carried over, nothing else), and fails
+    (→ ProtocolError) exactly when that data is invalid for the negotiated window. -/
+theorem never_wrong (wsize : Nat) (reset : Bool) (msgs : List (List Blk)) :
+    repairedOutputs wsize reset [] msgs = rfcOutputs wsize reset [] msgs :=
+  repaired_eq_rfc wsize reset msgs []
+
+/-- the mechanism of the repair: feeding a zlib object and, each time it stops at its end of
+    stream leaving `unused_data`, a new object primed with the window (as many times as needed),
+    decodes every block of the data in turn with one continuous window -/
+theorem repaired_restart_reads_all_blocks (wsize : Nat) (win : Bytes) (blocks : List Blk) :
+    repairedFeed wsize (blocks.length + 1) win blocks = inflBlocksAll wsize win blocks :=
+  repairedFeed_eq wsize _ win blocks (by omega)
+
+/-- the same in the core model's formulation (inflate the whole compressed history with the
+    repaired code's inflater, deliver what is new): it is the RFC 7692 meaning, message by message -/
+theorem never_wrong_whole_history (wsize : Nat) (reset : Bool) (msgs : List (List Blk)) :
+    wholeOutputsSafe wsize reset [] 0 msgs = rfcOutputs wsize reset [] msgs := by
+  simpa using wholeSafe_eq_rfc wsize reset msgs [] [] [] rfl
+
+/-- … and in the core model itself: with an `inflate` that reads the byte histories that occur as
+    their blocks, going on after BFINAL=1 blocks (`AgreesSafe`; the correspondence run checks this
+    of `Inflate.inflateAllSafe` against zlib), `Core.inflateMessage` returns for every compressed
+    message — BFINAL or not — what RFC 7692 says it means, or fails where that is undefined. -/
+theorem never_wrong_core (enc : List Blk → Bytes) (d : Http.DeflateCfg) (msgs : List (List Blk)) (s : Sys)
+    (hd : s.compression = some d) (hh : s.inflHist = []) (ho : s.inflOut = 0)
+    (hA : if d.resetDecompress then ∀ m ∈ msgs, AgreesSafe s.cfg.inflate d.decompressWbits enc [m]
+          else ∀ k, k ≤ msgs.length → AgreesSafe s.cfg.inflate d.decompressWbits enc (msgs.take k)) :
+    feedMsgs (msgs.map enc) s = rfcOutputs (2 ^ d.decompressWbits) d.resetDecompress [] msgs := by
+  rw [← never_wrong_whole_history]
+  cases hr : d.resetDecompress with
+  | true =>
+    rw [hr] at hA; simp only [if_true] at hA
+    exact feedMsgs_reset_safe enc d hr msgs s hd hh ho hA
+  | false =>
+    rw [hr] at hA; simp only [Bool.false_eq_true, if_false] at hA
+    have := feedMsgs_takeover_safe enc d hr msgs s [] hd (by rw [hh]; rfl) (by simpa using hA)
+    rw [ho] at this
+    simpa using this
+
+/-- lossless peer → client for the repaired code: unchanged by the repair (a peer that never sets
+    BFINAL is read exactly as before) -/
+theorem lossless_peer_to_client_repaired (sw : Nat) (c : Compressor (2 ^ sw)) (serverNoTakeover peerResets : Bool)
+    (hk : peerResets = false → serverNoTakeover = false) (msgs : List Bytes) :
+    wholeOutputsSafe (2 ^ sw) serverNoTakeover [] 0 ((senderTokens c peerResets [] msgs).map oneBlock) = some msgs := by
+  rw [never_wrong_whole_history, rfc_oneBlock]
+  exact lossless_history c _ (Nat.le_refl _) _ _ hk msgs
+
+/-- **Never wrong, pinned code, for all histories without BFINAL=1 blocks** (every configuration, every
     history, any blocks / tokens, valid or not): lomond's object delivers for each message exactly
     what the message's DEFLATE data means per RFC 7692 given the window, and fails (ProtocolError)
     exactly when that data is invalid for the negotiated window. -/
@@ -184,6 +238,15 @@ theorem bfinal_fails :
 example :
     Inflate.inflateAll 15 [0xf3, 0x48, 0xcd, 0xc9, 0xc9, 0x07, 0, 0, 0, 0, 0xff, 0xff] = some [72, 101, 108, 108, 111] ∧
     Inflate.inflateAll 15 [0xf2, 0x48, 0xcd, 0xc9, 0xc9, 0x07, 0, 0, 0, 0xff, 0xff] = some [72, 101, 108, 108, 111] := by
+  decide +kernel
+
+/-- **the same run on the repaired code** (the model driven with `Inflate.inflateAllSafe`, as the
+    check does when the probe finds the repaired shape): `Text "Hello"` twice -/
+theorem bfinal_repaired :
+    (runAll { challenge := [97, 98, 99], inflate := Inflate.inflateAllSafe } (fun _ => [])
+        [.wait 0 (some (.data (bfinalReply ++ bfinalFrames)))]).trace =
+      [.incomplete, .selClose, .sockClose, .ev (.text [72, 101, 108, 108, 111]), .ev (.text [72, 101, 108, 108, 111]), .ev .poll,
+       .ev (.ready none true), .ev (.connected false), .wr [], .ev .connecting] := by
   decide +kernel
 
 /-- **What is delivered for a compressed message is `inflate`'s output or a ProtocolError** (core
@@ -449,6 +512,32 @@ example : ∀ k, k ≤ [rfcHello1, rfcHello2].length → Agrees Inflate.inflateA
 
 example : tokenOut (2 ^ 15) [rfcHello1, rfcHello2] = some [72, 101, 108, 108, 111, 72, 101, 108, 108, 111] := by
   decide +kernel
+
+/-- non-vacuity of `AgreesSafe` with the bit-level inflater of the repaired code, on a history with a
+    BFINAL=1 block: the RFC 7692 §7.2.3.4 message (`f3 48 cd c9 c9 07 00` = "Hello" in a final
+    block, then the `00` byte), followed by the ordinary `f2 48 cd c9 c9 07 00` -/
+def rfcHelloFinal : List Blk := [⟨true, [.lit 72, .lit 101, .lit 108, .lit 108, .lit 111]⟩]
+def rfcEncFinal (m : List Blk) : Bytes :=
+  if m = rfcHelloFinal then [0xf3, 0x48, 0xcd, 0xc9, 0xc9, 0x07, 0x00, 0x00]
+  else if m = rfcHello1 then [0xf2, 0x48, 0xcd, 0xc9, 0xc9, 0x07, 0x00] else []
+
+example : ∀ k, k ≤ [rfcHelloFinal, rfcHello1].length →
+    AgreesSafe Inflate.inflateAllSafe 15 rfcEncFinal ([rfcHelloFinal, rfcHello1].take k) := by
+  intro k hk
+  have : k = 0 ∨ k = 1 ∨ k = 2 := by simp at hk; omega
+  rcases this with h | h | h <;> subst h <;> (show _ = _) <;> decide +kernel
+
+/-- on that history the two shapes differ: the pinned code delivers "Hello", "" — the repaired one
+    (= the RFC meaning) "Hello", "Hello" -/
+example :
+    objectOutputs (2 ^ 15) false {} [rfcHelloFinal, rfcHello1] = some [[72, 101, 108, 108, 111], []] ∧
+    repairedOutputs (2 ^ 15) false [] [rfcHelloFinal, rfcHello1] = some [[72, 101, 108, 108, 111], [72, 101, 108, 108, 111]] ∧
+    rfcOutputs (2 ^ 15) false [] [rfcHelloFinal, rfcHello1] = some [[72, 101, 108, 108, 111], [72, 101, 108, 108, 111]] := by
+  refine ⟨?_, ?_, ?_⟩ <;> decide +kernel
+
+/-- a message in which further blocks follow the BFINAL=1 block and refer back across it -/
+example : repairedOutputs 256 false [] [[⟨true, [.lit 1, .lit 2]⟩, ⟨false, [.copy 2 3]⟩], [⟨false, [.copy 5 2]⟩]]
+    = some [[1, 2, 1, 2, 1], [1, 2]] := by decide
 
 /-- the written-out fixed Huffman tables of Model/Inflate.lean are the canonical ones
     (compared as lists: counts per length, symbols in canonical order, shape) -/
